@@ -81,7 +81,7 @@ func Draw(t *rapid.T, p *Profile) *Case {
 	}
 	c.Keys = gen.DrawKeyPool(t, minK, maxK)
 	nk := len(c.Keys)
-	c.Det = rapid.IntRange(0, 99).Draw(t, "det") < p.DetPercent
+	c.Det = rapid.SampledFrom([]int{5, 15, 25, 35, 45, 55, 65, 75, 85, 95}).Draw(t, "det") < p.DetPercent
 	var kinds []string
 	for _, k := range opOrder {
 		for i := 0; i < p.W[k]; i++ {
@@ -154,7 +154,11 @@ func Draw(t *rapid.T, p *Profile) *Case {
 		}
 		return op
 	})
-	c.Ops = rapid.SliceOfN(opGen, p.MinOps, p.MaxOps).Draw(t, "ops")
+	// rapid's slice sizes are biased towards the minimum; draw a size class
+	// first so that long histories (deep levels) are common.
+	span := p.MaxOps - p.MinOps
+	minOps := p.MinOps + rapid.SampledFrom([]int{0, 0, span / 8, span / 4, span / 2}).Draw(t, "sizeclass")
+	c.Ops = rapid.SliceOfN(opGen, minOps, p.MaxOps).Draw(t, "ops")
 	return c
 }
 
